@@ -137,6 +137,11 @@ def run(out, prop, tier, seed, only_slices=None):
                                   {'kind': 'oidindex', 'history': raw[t['id']], 'events': t['events'], 'verdict': v})
             elif v['refine'] != 'ok':
                 out.add_drift('index differs from MergeBatch at build %s of [%s]' % (v['at'], brief))
+    if not only_slices or 'e2e' in only_slices:
+        # end to end: the index the real mibdump stores for materialised worlds (real parser, generator, compiler, writer),
+        # judged by IndexOnlyDefines / IndexCovers of MibDump.tla against the OIDs the fixture modules define
+        from checks import clitools
+        clitools.run_dump(out, prop, tier, seed, only_slices=['report-json', 'stub-json'], only_formulas=('IndexOnlyDefines', 'IndexCovers'))
     out.assumptions += ['TLC + Json module trusted', 'per-module summaries are handed to genIndex as MibStatus objects built by the harness',
                         'every 25th history goes through MibCompiler.buildIndex with a real FileWriter (index read back from disk)']
 
